@@ -494,7 +494,7 @@ pub fn unit_lines(text: &str, src: &Source, copied: &std::collections::BTreeSet<
             let ind = l.bytes().take_while(|b| *b == b' ').count();
             let ex = spans.iter().any(|s| {
                 (s["a"].as_u64().unwrap() as usize) < ln && ln <= s["b"].as_u64().unwrap() as usize
-            }) || (!l.is_empty() && copied.contains(l.trim_end()));
+            }) || is_copied(l, copied);
             json!({"ind": ind, "rest": &l[ind..], "ex": ex})
         })
         .collect()
@@ -551,8 +551,13 @@ pub fn disabled_continuation_lines(root: &SyntaxNode) -> std::collections::BTree
             .is_some_and(|cb| attrs.is_format_disabled(cb.body().to_untyped()));
         if (attrs.is_format_disabled(n) && !is_comment(n.kind())) || body_disabled {
             let t = node_text(n);
-            for l in t.split('\n').skip(1) {
+            let ls: Vec<&str> = t.split('\n').collect();
+            for (k, l) in ls.iter().enumerate().skip(1) {
                 out.insert(l.trim_end().to_string());
+                if k + 1 == ls.len() && !l.trim().is_empty() {
+                    // the last line of the node may be followed by more text on the same output line
+                    out.insert(format!("\u{1}{}", l));
+                }
             }
         }
         for c in n.children() {
@@ -569,7 +574,15 @@ pub fn lines_with_copied(text: &str, copied: &std::collections::BTreeSet<String>
         .map(|l| {
             let ind = l.bytes().take_while(|b| *b == b' ').count();
             let last = l.chars().last().map(|c| c as u32).unwrap_or(0);
-            json!({"n": l.len(), "ind": ind, "last": last, "cp": !l.is_empty() && copied.contains(l.trim_end())})
+            json!({"n": l.len(), "ind": ind, "last": last, "cp": is_copied(l, copied)})
         })
         .collect()
+}
+
+/// The output line is a verbatim continuation line of a disabled input node (exactly, or — for the node's last
+/// line — as a prefix).
+pub fn is_copied(l: &str, copied: &std::collections::BTreeSet<String>) -> bool {
+    !l.is_empty()
+        && (copied.contains(l.trim_end())
+            || copied.iter().any(|p| p.strip_prefix('\u{1}').is_some_and(|p| l.starts_with(p))))
 }
